@@ -87,6 +87,7 @@ type session struct {
 	SC        *scriptSC
 	Ck        []byte // serialized checkpoint to resume from (nil: from the start)
 	Whitelist map[int64]bool
+	OnSourceRead func(n int) // called before the n-th read of the patch source
 	b         bowl.Bowl
 	ResumeErr error
 	Panic     string
@@ -96,7 +97,10 @@ type session struct {
 func (se *session) run() {
 	se.Stage = "new"
 	se.Panic = Recover(func() {
-		src, _ := NewSource(se.Patch, se.Slice, nil)
+		src, raw := NewSource(se.Patch, se.Slice, nil)
+		if se.OnSourceRead != nil {
+			raw.OnRead = func(n int, off int64) { se.OnSourceRead(n) }
+		}
 		p, err := patcher.New(src, Quiet())
 		if err != nil {
 			se.ResumeErr = err
@@ -324,6 +328,19 @@ func TestC03(t *testing.T) {
 		bout, bstage := mkdirs()
 		sc := &scriptSC{Should: should, StopAt: -1, DiskDir: diskDir(bout, bstage)}
 		b := &session{Patch: patch, OldDir: oldDir, OutDir: bout, StageDir: bstage, Overlay: overlay, Slice: slice, SC: sc, Whitelist: whitelist}
+		// interruption instants between checkpoints: disk snapshots taken at every n-th read of the
+		// patch source (at most 12), remembered with the number of checkpoints handed out so far
+		type midSnap struct {
+			after int // number of checkpoints saved before this instant
+			disk  *Snap
+		}
+		var mids []midSnap
+		midEvery := rapid.IntRange(3, 40).Draw(rt, "midevery")
+		b.OnSourceRead = func(n int) {
+			if n%midEvery == 0 && len(mids) < 12 && len(sc.Saves) > 0 {
+				mids = append(mids, midSnap{after: len(sc.Saves), disk: MustSnapshot(sc.DiskDir)})
+			}
+		}
 		b.run()
 		if b.Panic != "" || b.ResumeErr != nil {
 			Violation(rt, "C03/saving-run", "apply with a saving consumer failed at %s: %v %s (%s)", b.Stage, b.ResumeErr, b.Panic, cfg)
@@ -383,6 +400,18 @@ func TestC03(t *testing.T) {
 			mode := rng.Intn(5)
 			if lag == 0 {
 				l = ck.Disk // stopped exactly at the checkpoint
+			} else if rng.Intn(3) == 0 {
+				// died somewhere between two checkpoints
+				var cands []*Snap
+				for _, ms := range mids {
+					if ms.after > k {
+						cands = append(cands, ms.disk)
+					}
+				}
+				if len(cands) > 0 {
+					l = cands[rng.Intn(len(cands))]
+					Ev.Probe("interrupted_between_checkpoints")
+				}
 			}
 			curCk, curDk, curL := ck.Gob, ck.Disk, l
 			chainDesc := fmt.Sprintf("restart from checkpoint %d/%d (%s) lag %d tear mode %d", k, m, ck.Desc, lag, mode)
